@@ -17,9 +17,11 @@ TPOOL = [POOL4[0], POOL4[1], POOL4[3]]
 def levels(tier):
     if tier == "quick":
         return [
-            {"name": "n2", "n": 2, "alphabet": ["page", "links", "we", "rule"], "links_batch": 1, "rule_patterns": ["path1"], "clear": True,
+            {"name": "n2", "n": 2, "alphabet": ["page", "we", "rule"], "rule_patterns": ["path1"], "clear": True,
              "tpool": [0, 1]},
             {"name": "rule-del", "n": 1, "prelude": [["rule", [1, 3, "path1"]], ["page", 1, False]], "alphabet": ["delwe", "page", "we"], "clear": True},
+            {"name": "memory-clear", "n": 2, "alphabet": ["page", "we"], "clear": True, "backend": "memory", "tpool": [0, 1]},
+            {"name": "special-clear", "n": 2, "alphabet": ["page"], "clear": True, "pool": [{"special": "LocalHost", "paths": 1}, {"hosts": 2}]},
             {"name": "n1-wide", "n": 1, "alphabet": ["page", "links", "we", "rule", "batch", "addprefix"], "links_batch": 1, "batch_targets": 1,
              "rule_patterns": ["path1"], "clear": True},
         ]
@@ -40,11 +42,12 @@ def sizes_ok(E, t):
 
 def harness(E):
     P = E.params
-    pool = typed_pool(E, [TPOOL[i] for i in P.get("tpool", [0, 1, 2])], L=1)
+    pool = typed_pool(E, P["pool"] if P.get("pool") else [TPOOL[i] for i in P.get("tpool", [0, 1, 2])], L=1)
+    memory = P.get("backend") == "memory"
     ref = Ref()
     ref.default_rule = "domain"
-    fa = E.fresh_folder("a")
-    fb = E.fresh_folder("b")
+    fa = None if memory else E.fresh_folder("a")
+    fb = None if memory else E.fresh_folder("b")
     a = E.Traph(folder=fa, default_webentity_creation_rule=RULES["domain"], webentity_creation_rules={})
     b = E.Traph(folder=fb, default_webentity_creation_rule=RULES["domain"], webentity_creation_rules={})
     tw = Twin(E, a, b)
@@ -56,6 +59,8 @@ def harness(E):
             E.reach("write-after-reopen")
         h.step(i)
         act = E.choose("after%d" % i, 3 if P.get("clear") else 2)     # 0: go on, 1: close+reopen the first index, 2: clear both
+        if memory and act == 1:
+            E.assume(False)        # an in-memory index cannot be reopened
         if act != 0:
             read_battery(E, tw, pool)      # observations before the restart/clear as well (query, restart, query again)
         if act == 1:
@@ -80,7 +85,7 @@ def harness(E):
             known = dict((id(lru), ref.known.get(lru)) for lru, rn in anchors)
             E.call("clear", tw.a.clear, RULES["domain"], dict(rules), _allowed=())
             tw.b.close()
-            fb = E.fresh_folder("b%d" % i)
+            fb = None if memory else E.fresh_folder("b%d" % i)
             tw.__dict__["b"] = E.Traph(folder=fb, default_webentity_creation_rule=RULES["domain"], webentity_creation_rules=dict(rules))
             fresh = Ref()
             fresh.default_rule = "domain"
@@ -90,7 +95,8 @@ def harness(E):
                 ref.rules.set(lru, rn)
         if act != 0 or i == P["n"] - 1:
             read_battery(E, tw, pool)
-    sizes_ok(E, tw.a)
+    if not memory:
+        sizes_ok(E, tw.a)
     ta, tb = E.raw_store(tw.a, "trie"), E.raw_store(tw.b, "trie")
     la, lb = E.raw_store(tw.a, "links"), E.raw_store(tw.b, "links")
     E.check(E.all(E.eq(ta, tb), E.eq(la, lb)), "twin:stores", "the reopened/cleared index and its never-closed twin hold different bytes")
